@@ -27,7 +27,7 @@ def build_all(spec, tier=None, only_modes=None):
             exes[k] = vc.build_harness(h["name"], h["sources"], m["flavour"],
                                        with_lib=h.get("with_lib", True),
                                        extra_cflags=h.get("cflags", ()),
-                                       extra_ldflags=h.get("ldflags", ()))
+                                       extra_ldflags=h.get("ldflags", ()), deps=h.get("deps", ()))
     return exes
 
 
@@ -93,7 +93,7 @@ def replay(spec, path):
     m = m[0]
     h = spec["harnesses"][m.get("harness", spec.get("default_harness"))]
     exe = vc.build_harness(h["name"], h["sources"], m["flavour"], with_lib=h.get("with_lib", True),
-                           extra_cflags=h.get("cflags", ()), extra_ldflags=h.get("ldflags", ()))
+                           extra_cflags=h.get("cflags", ()), extra_ldflags=h.get("ldflags", ()), deps=h.get("deps", ()))
     args = obj.get("args") or mode_args(m, obj.get("tier", "quick"), obj.get("seed", 1))
     idx = int(obj.get("idx") or 0)
     argv = [exe] + list(args) + ["--start", str(idx), "--count", "1", "--verbose", "1"]
